@@ -9,7 +9,8 @@ RULE = ("K: fdtdx.place_objects on generated scenes (volume 5-8 cells per axis; 
         "Sphere/ellipsoid and Cylinder objects at random positions; placement orders drawn from a small set so that ties are "
         "frequent, sometimes equal to or below the volume's -1000; materials per property isotropic / near-isotropic within "
         "math.isclose / diagonal / full tensor, magnetic or not, electrically and magnetically conductive or not; unused "
-        "entries in `materials` dicts and a Device whose materials only widen the tiers; 40 % of the scenes mix multi-material "
+        "entries in `materials` dicts — incl. entries that TIE on permittivity with the painted one and differ in permeability "
+        "/ electric / magnetic conductivity, painted entry first or last in the dict — and a Device whose materials only widen the tiers; 40 % of the scenes mix multi-material "
         "objects WITH subpixel_smoothing=True and others WITHOUT, the latter birefringent and over anisotropic boxes; "
         "float64). Observed: "
         "arrays.inv_permittivities, inv_permeabilities (array or scalar), electric_conductivity, magnetic_conductivity "
@@ -160,6 +161,21 @@ def gen_scene(rng, idx, thorough=False):
     objs = objs[:at] + [pair[0]] + objs[at:]
     at2 = rng.randint(at + 1, len(objs))
     objs = objs[:at2] + [pair[1]] + objs[at2:]
+    # materials dicts whose entries TIE on permittivity but differ in permeability / conductivities, painted entry
+    # first or last in the dict and greater or smaller in the remaining sort keys: the selected name must get its own values
+    for o in objs:
+        if o["kind"] != "box" and rng.chance(0.6):
+            twin = {k: v for k, v in o["mat"].items()}
+            which = rng.choice(["sigE", "sigM", "mu"])
+            val = {"sigE": round(rng.uniform(1, 9), 2) * 1e5, "sigM": round(rng.uniform(1, 9), 2) * 1e4,
+                   "mu": round(rng.uniform(1.5, 4.0), 2)}[which]
+            if rng.chance(0.5):
+                twin[which] = val                    # the other entry is the lossy / magnetic one
+            else:
+                twin.pop(which, None)
+                o["mat"] = {**o["mat"], which: val}  # the painted entry is
+            o["extra"] = list(o.get("extra", [])) + [twin]
+            o["extra_first"] = rng.chance(0.5)
     if smooth_scene:
         # one round object smoothed (the tied one or a fresh sphere), and ALWAYS a different, un-smoothed birefringent
         # cylinder plus an anisotropic box underneath: the switch of one object must not touch the others' cells
@@ -197,9 +213,14 @@ def build_scene(sc):
             ob = fdtdx.UniformMaterialObject(name=name, partial_grid_shape=tuple(o["size"]), material=to_material(o["mat"]),
                                              placement_order=int(o["order"]))
         else:
-            mats = {"paint": to_material(o["mat"])}
+            # dict order matters for sorts that tie: the painted entry comes first or last
+            mats = {}
+            if not o.get("extra_first"):
+                mats["paint"] = to_material(o["mat"])
             for e, m in enumerate(o.get("extra", [])):
                 mats[f"extra{e}"] = to_material(m)
+            if o.get("extra_first"):
+                mats["paint"] = to_material(o["mat"])
             if o["kind"] == "sphere":
                 r = [s * H / 2.0 for s in o["size"]]
                 ob = fdtdx.Sphere(name=name, radius=r[0], radius_x=r[0], radius_y=r[1], radius_z=r[2], material_name="paint",
@@ -489,6 +510,17 @@ FIXED = [
         {"kind": "sphere", "order": 1, "mat": {"eps": 5.0}, "extra": [], "size": [4, 4, 4], "lo": [0, 0, 0], "smooth": True},
         {"kind": "cyl", "order": 1, "axis": 2, "mat": {"eps": [2.0, 3.0, 4.0]}, "extra": [], "size": [2, 2, 4], "lo": [4, 4, 1]},
         {"kind": "sphere", "order": 2, "mat": {"eps": [6.0, 7.0, 8.0]}, "extra": [], "size": [4, 3, 2], "lo": [2, 3, 4]}]},
+    # materials dicts with a permittivity tie ("absorber" eps 2.25 + loss / "clear" eps 2.25), either dict order and
+    # either entry selected: the cells must carry the selected entry's conductivity and permeability
+    {"volume": [6, 6, 6], "vol_order": -1000, "vol_mat": {}, "device": None, "objects": [
+        {"kind": "sphere", "order": 0, "mat": {"eps": 2.25, "sigE": 4.0e5}, "extra": [{"eps": 2.25}], "extra_first": False,
+         "size": [4, 3, 2], "lo": [0, 0, 0]},
+        {"kind": "sphere", "order": 0, "mat": {"eps": 2.25, "sigE": 4.0e5}, "extra": [{"eps": 2.25}], "extra_first": True,
+         "size": [4, 3, 2], "lo": [2, 3, 4]},
+        {"kind": "cyl", "order": 0, "axis": 2, "mat": {"eps": 3.0}, "extra": [{"eps": 3.0, "mu": 2.0, "sigM": 5.0e4}],
+         "extra_first": True, "size": [2, 2, 4], "lo": [4, 0, 2]},
+        {"kind": "cyl", "order": 0, "axis": 1, "mat": {"eps": 3.0, "mu": 2.0}, "extra": [{"eps": 3.0}],
+         "extra_first": False, "size": [3, 3, 3], "lo": [0, 3, 0]}]},
     # everything wide: full permittivity tensor, diagonal permeability, conductivities
     {"volume": [6, 6, 6], "vol_order": -1000, "vol_mat": {"eps": 1.5}, "device": None, "objects": [
         {"kind": "box", "order": 0, "mat": {"eps": [2.0, 0.1, 0.0, 0.1, 3.0, 0.2, 0.0, 0.2, 4.0], "sigE": 3.0e4}, "size": [2, 4, 3], "lo": [0, 1, 2]},
